@@ -22,7 +22,8 @@ ASSUMPTIONS = ["decimal grids (class B): Brownian increments over intervals whos
                "~sqrt(ulp); the 1e-9 bound is therefore demanded with backward query times snapped to the forward "
                "grid times (unsnapped: 1e-6)"]
 REQUIRED_COUNTERS = ["class_A", "class_B", "multi_output_cases", "noise_diagonal", "noise_scalar", "noise_additive",
-                     "noise_general", "loss_subset_not_last", "loss_subset_one_interior"]
+                     "noise_general", "loss_subset_not_last", "loss_subset_one_interior", "negative_times",
+                     "chunked_with_extra_state"]
 THRESHOLDS = {"A": 1e-9, "B_snapped": 1e-9, "B_unsnapped": 1e-6, "C": 1e-9}
 
 
@@ -56,7 +57,8 @@ def run_case(case):
     kind = rng.choice(["dyadic", "decimal", "decimal"])
     dt = rng.choice([2.0 ** -3, 2.0 ** -4, 2.0 ** -5]) if kind == "dyadic" else rng.choice([0.05, 0.1, 0.01, 0.025])
     nsteps = rng.choice([4, 10, 20, 30]) if dt > 0.02 else rng.choice([20, 50])
-    t0 = rng.choice([0.0, 0.0, 1.0, -0.5]) if kind == "dyadic" else rng.choice([0.0, 0.0, 0.3])
+    t0 = rng.choice([0.0, 0.0, 1.0, -0.5, -2.0]) if kind == "dyadic" else rng.choice([0.0, 0.0, 0.3, -0.4])
+    cnt["negative_times"] = int(t0 < 0)
     k = rng.choice([1, 1, 2, 3, 8])  # number of output intervals (1-9 output times)
     k = min(k, nsteps)
     idx = sorted(rng.sample(range(1, nsteps), k - 1)) + [nsteps]
@@ -84,16 +86,42 @@ def run_case(case):
     def mk():
         return torchsde.BrownianInterval(t0=tsl[0], t1=tsl[-1], size=(B, sde.m), entropy=entropy)
 
+    # variant: checkpoint-restart use - the solve is split at an output time, the returned extra state is handed to the
+    # second call, and the loss also reads the final extra state (so gradient has to flow through the returned state)
+    chunked = len(tsl) > 2 and rng.random() < 0.3
+    cnt["chunked_with_extra_state"] = int(chunked)
+    cut = rng.randrange(1, len(tsl) - 1) if chunked else None
+    we = [torch.randn(s_, generator=gen) for s_ in ((B, d), (B, d) if nt == "diagonal" else (B, d, sde.m), (B, d))]
+
+    def solve(fn, s, y, bm, **kw):
+        if not chunked:
+            return fn(s, y, ts, bm=bm, method="reversible_heun", dt=dt, **kw)
+        ys1, ex = fn(s, y, ts[:cut + 1], bm=bm, method="reversible_heun", dt=dt, extra=True, **kw)
+        ys2, ex2 = fn(s, ys1[-1], ts[cut:], bm=bm, method="reversible_heun", dt=dt, extra=True, extra_solver_state=ex, **kw)
+        tail = sum((e * q).sum() for e, q in zip(ex2, we))
+        # (the extra term is folded into the last output so that the caller's (ys * w).sum() sees it)
+        ys = torch.cat([ys1, ys2[1:]], 0)
+        return ys, tail
+
     def compare(wrap):
         bm1, bm2 = wrap(mk()), wrap(mk())
         pr = probes.SolverProbe(keep_states=False)
-        g_bp = _grads(lambda s, y: torchsde.sdeint(s, y, ts, bm=bm1, method="reversible_heun", dt=dt), sde, y0v, w)
+
+        def grads_of(fn, bm, **kw):
+            for p in sde.parameters():
+                p.grad = None
+            y0 = y0v.clone().requires_grad_(True)
+            out = solve(fn, sde, y0, bm, **kw)
+            loss = (out * w).sum() if not chunked else (out[0] * w).sum() + out[1]
+            loss.backward()
+            return torch.cat([y0.grad.flatten()] + [(p.grad if p.grad is not None else torch.zeros_like(p)).flatten()
+                                                    for p in sde.parameters()])
+        g_bp = grads_of(torchsde.sdeint, bm1)
         with pr.installed():
-            g_adj = _grads(lambda s, y: torchsde.sdeint_adjoint(s, y, ts, bm=bm2, method="reversible_heun",
-                                                                adjoint_method="adjoint_reversible_heun", dt=dt),
-                           sde, y0v, w)
-        fwd = [(s["t0"], s["t1"]) for s in pr.steps if s["solver"] == 0]
-        bwd = sorted((-s["t1"], -s["t0"]) for s in pr.steps if s["solver"] != 0)
+            g_adj = grads_of(torchsde.sdeint_adjoint, bm2, adjoint_method="adjoint_reversible_heun")
+        nfwd = 2 if chunked else 1  # forward solvers are created first (one per sdeint_adjoint call)
+        fwd = [(s["t0"], s["t1"]) for s in pr.steps if s["solver"] < nfwd]
+        bwd = sorted((-s["t1"], -s["t0"]) for s in pr.steps if s["solver"] >= nfwd)
         rel = float((g_bp - g_adj).norm() / g_bp.norm())
         return rel, fwd, bwd, float(g_bp.norm())
 
